@@ -741,14 +741,20 @@ class Povm(QOperation):
                 spectral_decomp = dict()
                 eigenval_prev = None
                 # the eigenvectors are the COLUMNS of eigenvecs; projector |v><v| needs the conjugate
+                # eigenvalues that agree up to the tolerance belong to one spectral projector
+                # (eigh returns them in ascending order; exact float equality would split
+                #  a degenerate eigenspace whose eigenvalues differ by rounding errors)
+                atol = Settings.get_atol()
                 for eigenval, eigenvec in zip(eigenvals, eigenvecs.T):
-                    if eigenval_prev == eigenval:
+                    if eigenval_prev is not None and np.isclose(
+                        eigenval_prev, eigenval, atol=atol, rtol=0.0
+                    ):
                         P = np.dot(np.array([eigenvec]).T, np.array([eigenvec]).conj())
-                        spectral_decomp[eigenval].append(P)
+                        spectral_decomp[eigenval_prev].append(P)
                     else:
                         P = np.dot(np.array([eigenvec]).T, np.array([eigenvec]).conj())
                         spectral_decomp[eigenval] = [P]
-                    eigenval_prev = eigenval
+                        eigenval_prev = eigenval
 
                 hs_cb = None
                 for eigenval, Ps in spectral_decomp.items():
